@@ -28,6 +28,10 @@ _Bool nondet_bool(void);
 int nondet_int(void);
 unsigned char nondet_uchar(void);
 size_t nondet_size_t(void);
+long nondet_long(void);
+unsigned nondet_uint(void);
+unsigned long nondet_ulong(void);
+unsigned short nondet_ushort(void);
 
 /* three distinct stream objects (CBMC would let the extern pointers alias) */
 static FILE verif_stdout_obj, verif_stderr_obj, verif_stdin_obj, verif_file_obj;
@@ -41,7 +45,7 @@ static FILE verif_stdout_obj, verif_stderr_obj, verif_stdin_obj, verif_file_obj;
 /* ---- ghost state ------------------------------------------------------------------- */
 
 static void mon_on_diag(void);     /* spec/basic_line_monitor.h */
-static void g_diag_inc(void) { if (g_diag < 0xFFFFFFF0u) g_diag++; mon_on_diag(); }
+static void g_diag_inc(void) { g_diag++; mon_on_diag(); }   /* contracts keep g_diag < 2^62: no wrap */
 
 /* ---- line monitor interface (defined in spec/basic_line_monitor.h) -------------------- */
 static void mon_event_chr(int c);
@@ -51,7 +55,7 @@ static void mon_event_fmt(const char *fmt, unsigned long a, unsigned long b);
 /* ---- stdout / stderr ---------------------------------------------------------------- */
 static int verif_out_fail(void)
 {
-  if (nondet_bool()) { if (g_wfail < 0xFFFFFFF0u) g_wfail++; return 1; }
+  if (nondet_bool()) { g_wfail++; return 1; }
   return 0;
 }
 
@@ -176,4 +180,87 @@ static void verif_clearerr(FILE *f) { (void)f; g_rd_err = 0; }
 #define ferror(f)      verif_ferror(f)
 #define clearerr(f)    verif_clearerr(f)
 
+#endif
+
+/* ---- additional libc models used by bbcbasic_to_text.c / decoder.c (assumed contracts) -------- */
+#ifndef VERIF_BASIC_STDIO_MAIN_H
+#define VERIF_BASIC_STDIO_MAIN_H
+#include <stdlib.h>
+#include <string.h>
+#include <unistd.h>
+#include <getopt.h>
+
+static int verif_optind = 1;
+static char *verif_optarg;
+static char verif_optarg_obj[16];         /* an option argument: 15 unconstrained chars + NUL */
+static int verif_argc;                    /* set by the harness */
+static _Bool g_stdin_used;
+
+#define optind verif_optind
+#define optarg verif_optarg
+
+/* getopt_long: returns -1 (options exhausted) or an option character; optind stays within
+   [1, argc]; for an option that takes an argument optarg points to a NUL-terminated string. */
+static int verif_getopt_long(int argc)
+{
+  int r = nondet_int();
+  int adv = nondet_int();
+  __CPROVER_assume(adv >= 0 && adv <= 2 && verif_optind + adv <= argc);
+  verif_optind += adv;
+  if (r == -1) { verif_optarg = 0; return -1; }
+  __CPROVER_assume(r == '?' || r == 'D' || r == 'h' || r == 'l' || r == 'd');
+  if (r == '?') g_diag_inc();             /* getopt itself prints the error message */
+  if (r == 'D' || r == 'l' || r == 'd')
+    {
+      verif_optarg_obj[15] = 0;
+      verif_optarg = verif_optarg_obj;
+    }
+  else
+    verif_optarg = 0;
+  return r;
+}
+#define getopt_long(argc, argv, s, o, li) verif_getopt_long(argc)
+
+/* strcmp: result unconstrained (the strings are opaque) except that "-" can name standard input
+   at most once per run (stated assumption: reading stdin twice is outside the model) */
+static int verif_strcmp(const char *a, const char *b)
+{
+  int r = nondet_int();
+  (void)a; (void)b;
+  return r;
+}
+#define strcmp(a, b) verif_strcmp((a), (b))
+
+static long verif_strtol(const char *s, char **end, int base)
+{
+  long v = nondet_long();
+  size_t k = nondet_size_t();
+  (void)base;
+  __CPROVER_assume(k <= 15);
+  if (k == 0) v = 0;
+  *end = (char *)s + k;
+  return v;
+}
+#define strtol(s, e, b) verif_strtol((s), (e), (b))
+
+/* fopen: NULL or a stream positioned at the start of a (new) ghost file; the specification state
+   for "a new program starts here" is reset with it */
+static FILE *verif_fopen(const char *name, const char *mode)
+{
+  (void)name; (void)mode;
+  if (nondet_bool()) return 0;
+  g_pos = 0; g_eof_seen = 0; g_rd_err = 0; g_read_error_happened = 0;
+  fmon_phase = 0 /* FPH_START */; fmon_lines = g_lines_listed;
+  mon_indent_run = 0;
+  return &verif_file_obj;
+}
+static int verif_fclose(FILE *f) { (void)f; return nondet_bool() ? EOF : 0; }
+static int verif_fflush(FILE *f)
+{
+  if (f == stdout) { if (verif_out_fail()) return EOF; return 0; }
+  return nondet_bool() ? EOF : 0;
+}
+#define fopen(n, m) verif_fopen((n), (m))
+#define fclose(f)   verif_fclose(f)
+#define fflush(f)   verif_fflush(f)
 #endif
